@@ -1783,7 +1783,9 @@ class BaseInterpreter(Generic[TContext, TEvent]):
 
         # 4. All other transitions are "external" and will cause a state change.
         snapshot_before = self._active_state_nodes.copy()
-        domain = self._find_transition_domain(transition, target_state)
+        domain = self._find_transition_domain(
+            transition, self._domain_anchor(target_state)
+        )
 
         states_to_exit = self._compute_states_to_exit(domain, target_state)
 
@@ -2066,6 +2068,11 @@ class BaseInterpreter(Generic[TContext, TEvent]):
                     return [resolved]
             if parent.initial and parent.initial in parent.states:
                 return [parent.states[parent.initial]]
+            if parent.type == "parallel":
+                # 🌐 A parallel parent has no `initial`: its normal entry is
+                #    every region. Returning nothing here entered NOTHING, so
+                #    the machine was left without an active leaf.
+                return [parent]
             return []
 
         if history_node.history == "deep":
@@ -2645,6 +2652,34 @@ class BaseInterpreter(Generic[TContext, TEvent]):
                 }
 
         return candidates
+
+    @staticmethod
+    def _domain_anchor(target_state: StateNode) -> StateNode:
+        """Returns the state whose position decides the transition domain.
+
+        A history child of a PARALLEL state stands for "re-enter my parent's
+        regions". Computing the domain from the history node itself made the
+        parallel parent the domain whenever the source was inside it, and the
+        region scoping in `_compute_states_to_exit` then exited nothing while
+        the remembered states were entered on top of the active ones - two
+        active children in one region. Anchoring on the parent exits the
+        whole parallel state first.
+
+        Args:
+            target_state (StateNode): The resolved transition target.
+
+        Returns:
+            StateNode: The parent for a history child of a parallel state,
+            otherwise the target itself.
+        """
+        parent = target_state.parent
+        if (
+            target_state.type == "history"
+            and parent is not None
+            and parent.type == "parallel"
+        ):
+            return parent
+        return target_state
 
     def _find_transition_domain(
         self, transition: TransitionDefinition, target_state: StateNode
